@@ -1,8 +1,47 @@
 import Flatland.JsonUtil
+import Flatland.Markup.Json
+import Flatland.C11
 open Lean Flatland.J
 namespace Flatland.Run.C11
+open Flatland.Markup Flatland.Markup.Json Flatland.C11 Flatland.Generated.C11
 
-/-- JSON case in, JSON observation out (stub until the model of C11 is written). -/
-def run (_j : Json) : Except String Json := .error "model runner for C11 not implemented yet"
+def ofParsed (p : Option Parsed) : Json :=
+  match p with
+  | none => Json.null
+  | some p => obj [("tag", ofChars p.tag),
+      ("attrs", ofList (fun (kv : List Char × List Char) => Json.arr #[ofChars kv.1, ofChars kv.2]) p.attrs),
+      ("text", ofChars p.text)]
+
+def runTag (j : Json) : Except String Json := do
+  let T := Tables.current
+  let markup ← cfld j "markup"
+  let settings ← parsePairs parseCVal (← fld j "settings")
+  let tag0 ← cfld j "tag"
+  -- Generator.tag() lower-cases the name; the properties (gen.input …) are fixed names
+  let tag := if (← sfld j "via") == "tag" then asciiLower tag0 else tag0
+  let bind ← parseBind (← fld j "bind")
+  let kwargs ← parsePairs parseVal (← fld j "kwargs")
+  match Gen.init T markup settings with
+  | .error e => return obj [("out", Json.null), ("err", Json.str e.name), ("parsed", Json.null)]
+  | .ok g =>
+    match g.callTag T attrChain voidElements staticAttributeOrder tag bind kwargs with
+    | .error e => return obj [("out", Json.null), ("err", Json.str e.name), ("parsed", Json.null)]
+    | .ok (s, _) =>
+      let parsed := if (Dict.get? kwargs "contents".toList).isSome then Json.null
+                    else ofParsed (parseTag decodeRefs voidElements s)
+      return obj [("out", ofChars s), ("err", Json.null), ("parsed", parsed)]
+
+def runSugar (j : Json) : Except String Json := do
+  let u ← cfld j "u"
+  let x := sugar xChain u
+  let xa := sugar xaChain u
+  return obj [("x", ofChars x), ("xa", ofChars xa),
+    ("x_dec", ofChars (decodeRefs x)), ("xa_dec", ofChars (decodeRefs xa))]
+
+def run (j : Json) : Except String Json := do
+  match (← sfld j "k") with
+  | "tag" => runTag j
+  | "sugar" => runSugar j
+  | k => throw s!"unknown case kind {k}"
 
 end Flatland.Run.C11
